@@ -100,13 +100,24 @@ class ProgModule(nn.Module):
         return tuple(env[n] for n in self.output_names)
 
 
+def _wexpr(w: torch.Tensor, st: Dict[str, Any]) -> torch.Tensor:
+    e = st.get("wexpr")
+    if e == "t":
+        return w.t()
+    if e == "scaled":
+        return w * 2.0
+    if e == "slice":
+        return w[:-2]
+    return w
+
+
 def _plain_op(mod: nn.Module, st: Dict[str, Any], a: List[Any]) -> Any:
     """Plain torch semantics of one IR statement, written the way a user would."""
     import unit_scaling.functional as U
 
     op = st["op"]
     if op == "linear":
-        w = getattr(mod, st["w"])
+        w = _wexpr(getattr(mod, st["w"]), st)
         b = getattr(mod, st["b"]) if st.get("b") else None
         style = st.get("style", "pos")
         if style == "pos":
@@ -417,7 +428,7 @@ class Reference:
 
         if op in ("linear", "nn_linear"):
             if op == "linear":
-                w = getattr(mod, st["w"])
+                w = _wexpr(getattr(mod, st["w"]), st)
                 b = getattr(mod, st["b"]) if st.get("b") else None
             else:
                 w, b = sub(st["mod"]).weight, sub(st["mod"]).bias
